@@ -179,7 +179,7 @@ def verus_phase(pid, P, tier, seed, t0):
         if prim and prim[0].get('text'):
             tx = prim[0]['text'][0]
             snippet = tx['text'][tx['highlight_start'] - 1:tx['highlight_end'] - 1].strip()[:80]
-        failures.append(dict(obligation='%s/%s%s [%s]' % (where, kind, off, snippet), kind=kind, item=where,
+        failures.append(dict(obligation='%s/%s%s [%s]' % (where, kind, off, snippet), kind=kind, item=where, entry=(meta['entry'] if meta else None),
                              repo_file=('src/' + meta['file']) if meta else None,
                              repo_lines=list(meta['lines']) if meta else None,
                              message=d['message'], rendered=d.get('rendered', '')))
@@ -275,6 +275,15 @@ def main(argv):
         print('UNDECIDED property=%s reason=extraction: %s' % (pid, str(g)[:300]))
         return 2
 
+    # macro / generic instances of one contract entry that fail the same clause are one obligation family
+    fam = {}
+    for f in failures:
+        k = (f.get('entry') or f['item'], f['kind'], f['obligation'].split('/')[-1])
+        if k in fam:
+            fam[k].setdefault('instances', [fam[k]['item']]).append(f['item'])
+        else:
+            fam[k] = f
+    failures = list(fam.values())
     known = load_known()
     kf = [k for k in known.get('findings', []) if k['property'] == pid]
     reported = []
